@@ -166,6 +166,10 @@ class Prop:
     rule = ""
     assumptions: list[str] = []
     # per-case soft timeout (SIGALRM -> CaseTimeout) and hard timeout (faulthandler exit)
+    # thorough tier = this many rounds of the case generator with different derived seeds (kinds listed in once_kinds are
+    # deterministic enumerations and run in the first round only); env VF_THOROUGH_ROUNDS overrides
+    thorough_rounds = 3
+    once_kinds: tuple = ()
     soft_timeout = 20.0
     hard_timeout = 90.0
     # names of deciding monitors -> minimal number of evaluations for a 'held' verdict
